@@ -68,7 +68,7 @@ fn main() {
             println!("INCONCLUSIVE replay file is for property {prop}, not {id}");
             std::process::exit(2);
         }
-        match props::replay(&id, &eng, &stage, &case) {
+        match replay_guarded(&id, &eng, &stage, &case, std::path::Path::new(&path)) {
             Ok(()) => {
                 println!("replay passed: property={id} stage={stage}");
                 std::process::exit(0);
@@ -89,7 +89,7 @@ fn main() {
     let mut regress_n = 0u64;
     for (path, stage, case) in engine::load_regress(&id) {
         regress_n += 1;
-        if let Err(f) = props::replay(&id, &eng, &stage, &case) {
+        if let Err(f) = replay_guarded(&id, &eng, &stage, &case, &path) {
             if f.kind == "machinery" {
                 println!("INCONCLUSIVE regress file {}: {}", path.display(), f.msg);
                 std::process::exit(2);
@@ -112,4 +112,28 @@ fn main() {
         props::run(&id, &eng);
     }
     std::process::exit(eng.finish());
+}
+
+/// One stored case under the per-case deadline: a replayed hang must end the process with a verdict
+/// (violation for the properties that speak about termination, inconclusive otherwise), not hang it.
+fn replay_guarded(id: &str, eng: &Engine, stage: &str, case: &serde_json::Value, path: &std::path::Path) -> engine::CaseResult {
+    let (tx, rx) = std::sync::mpsc::channel();
+    std::thread::scope(|s| {
+        s.spawn(move || {
+            let _ = tx.send(props::replay(id, eng, stage, case));
+        });
+        match rx.recv_timeout(eng.case_deadline) {
+            Ok(r) => r,
+            Err(std::sync::mpsc::RecvTimeoutError::Timeout) => {
+                if eng.hang_is_violation {
+                    println!("VIOLATION property={id} replay={}", path.display());
+                    println!("  stage={stage} kind=hang :: case did not finish within {:?}", eng.case_deadline);
+                    std::process::exit(1);
+                }
+                println!("INCONCLUSIVE property={id} stage={stage} the replayed case exceeded the {:?} deadline", eng.case_deadline);
+                std::process::exit(2);
+            }
+            Err(std::sync::mpsc::RecvTimeoutError::Disconnected) => Err(engine::Failure::new("panic", "the thread replaying the case died".to_string())),
+        }
+    })
 }
